@@ -163,6 +163,16 @@ class Universe:
         tw = 1 if tower else 0
         return self.sub[tw] + self.extra[tw]
 
+    def widening_members(self, tower: int):
+        """None, E, str: the X of the right-hand unions Union{b, X}."""
+        sub = self.sub[1 if tower else 0]
+        return (sub[1], sub[9], sub[7])
+
+    def nested_args(self, tower: int):
+        """Item terms of the tuples in ``dist_nested``: None | B, int | str, B, int, A, None, Any."""
+        sub = self.sub[1 if tower else 0]
+        return (sub[4], sub[14], sub[2], sub[5], sub[3], sub[1], sub[0])
+
     def fresh_type_system(self, tower: int) -> TypeSystem:
         """A new ``TypeSystem`` object (its ``lru_cache`` entries are keyed on ``self``, hence
         untouched) carrying a *copy* of the analysed inheritance graph."""
